@@ -78,6 +78,44 @@ theorem both_containers_first_only {β : Type} (a b : β) :
     pickContainer [("definitions", [a]), ("$defs", [b])] containerKeys = [a] := by
   simp [containerKeys, jsonSchemaPathsSplit, pickContainer, List.lookup]
 
+/-- Every entry of the walked container becomes a definition, whatever its body is — an empty schema `{}`, a schema
+that only carries annotations, or a full one — as long as every body is a mapping. -/
+theorem walk_keeps_every_name (entries : List (String × Body))
+    (h : entries.all (fun e => e.2 != .notAMapping) = true) : walkNamed entries = some (entries.map (·.1)) := by
+  unfold walkNamed
+  have : entries.any (fun e => e.2 == .notAMapping) = false := by
+    rw [List.any_eq_false]
+    intro e he
+    have := List.all_eq_true.mp h e he
+    simpa using this
+  simp [this]
+
+/-- … so the set of definitions is the same for two containers that hold the same names, whatever each side's bodies
+look like (the `definitions` / `$defs` / `components.schemas` equivalence does not depend on what the schemas are). -/
+theorem walk_body_independent (entries : List (String × Body)) (f : Body → Body)
+    (hf : ∀ b, (f b == .notAMapping) = (b == .notAMapping)) :
+    walkNamed (entries.map (fun e => (e.1, f e.2))) = walkNamed entries := by
+  have hany : (entries.map (fun e => (e.1, f e.2))).any (fun e => e.2 == .notAMapping) =
+      entries.any (fun e => e.2 == .notAMapping) := by
+    induction entries with
+    | nil => rfl
+    | cons e es ih => simp only [List.map_cons, List.any_cons, ih, hf]
+  have hmap : (entries.map (fun e => (e.1, f e.2))).map (·.1) = entries.map (·.1) := by
+    rw [List.map_map]
+    rfl
+  unfold walkNamed
+  rw [hany, hmap]
+
+/-- non-vacuity: an unreferenced empty schema beside an ordinary one is kept -/
+example : walkNamed [("Pet", .typed), ("AnyValue", .empty)] = some ["Pet", "AnyValue"] := by decide
+
+/-- a body that is not a mapping aborts the run — in every container alike -/
+theorem walk_refuses_non_mapping (entries : List (String × Body)) (n : String) (h : (n, Body.notAMapping) ∈ entries) :
+    walkNamed entries = none := by
+  unfold walkNamed
+  have : entries.any (fun e => e.2 == .notAMapping) = true := List.any_eq_true.mpr ⟨_, h, by simp⟩
+  simp [this]
+
 /-! ### formats -/
 
 /-- Every JSON-Schema type of the format table has a `default` entry, so an unknown format falls
